@@ -163,6 +163,9 @@ func (r *Run) Finish() int {
 			cov[key] = len(m)
 		}
 	}
+	if r.samples == nil {
+		r.samples = []interface{}{}
+	}
 	cov["samples"] = r.samples
 	cov["exhaustive"] = r.Exhaustive
 	var kf []string
